@@ -79,12 +79,12 @@ type Table struct {
 	items map[key]map[string]AV
 	byID  map[string]map[int64]struct{} // partition key -> sort keys present
 	// the most recent write, so that an eventually consistent read can be served from the state one write ago
-	lastKey    key
-	lastPrev   map[string]AV // item previously stored under lastKey (nil = absent)
-	hasLast    bool
+	lastKey  key
+	lastPrev map[string]AV // item previously stored under lastKey (nil = absent)
+	hasLast  bool
 	// counters
 	Gets, Puts, Queries, Inconsistent int
-	Region                           string
+	Region                            string
 	// FailReads / FailWrites > 0 make that many following reads / writes fail with a service error
 	FailReads, FailWrites int
 }
@@ -333,7 +333,11 @@ func (t *Table) Query(table, keyCond string, names map[string]string, values map
 }
 
 // SetFail arms read and write failures.
-func (t *Table) SetFail(reads, writes int) { t.mu.Lock(); t.FailReads, t.FailWrites = reads, writes; t.mu.Unlock() }
+func (t *Table) SetFail(reads, writes int) {
+	t.mu.Lock()
+	t.FailReads, t.FailWrites = reads, writes
+	t.mu.Unlock()
+}
 
 // Items returns a deep copy of the current items keyed "id|created".
 func (t *Table) Items() map[string]map[string]AV {
